@@ -26,11 +26,14 @@ impl<'a> Parser<'a> {
         })
     }
     pub fn parse(&mut self) -> Result<Node, ParseError> {
-        let ast = self.generate_ast(OperatorCategory::DefaultZero);
-        match ast {
-            Ok(ast) => Ok(ast),
-            Err(e) => Err(e),
+        let ast = self.generate_ast(OperatorCategory::DefaultZero)?;
+        if self.current_token != Token::Eof {
+            return Err(ParseError::InvalidOperator(format!(
+                "Unexpected token {:?}",
+                self.current_token
+            )));
         }
+        Ok(ast)
     }
     fn get_next_token(&mut self) -> Result<(), ParseError> {
         let next_token = match self.tokenizer.next() {
